@@ -7,6 +7,14 @@ EXPLANATION = 'id-table functions of dispatchers/file.c under contract with the 
 FILE_C = []
 INC = {'TU_file_c': 'src/dispatchers/file.c'}
 
+def vara_jobs(tier, prop):
+    return [Job('%s/filetype_create_vara/record_ndims%d_recsize%d' % (prop, nd, rs), prop, ['src/drivers/ncmpio/ncmpio_filetype.c', 'src/drivers/common/error_mpi2nc.c'], 'C17_filetype_vara.c',
+                enforce='ncmpio_filetype.c:filetype_create_vara', replace=['ncmpio_filetype.c:is_request_contiguous', 'ncmpio_filetype.c:type_create_subarray64'],
+                defines=['-DNDIMS=%d' % nd, '-DRECSIZE=%dLL' % rs], canaries=['record_type_built', 'more_records_than_an_int_counts', 'per_record_type_failed', 'contiguous'], unwind=5, kind='bounded', timeout=240,
+                bound='record variable with %d dimensions, record size %d (enumerated); start, count, begin, callee outcomes symbolic' % (nd, rs),
+                assumptions=['filetype_create_vara: is_request_contiguous and type_create_subarray64 by their contracts (enforced in C01 / C18); ncmpio_first_offset, ncmpii_nc2mpitype and the MPI datatype calls are harness stubs with bodies'])
+            for nd, rs in ([(2, 12)] if tier == 'quick' else [(2, 12), (3, 12), (2, (1 << 33) + 4)])]
+
 def jobs(tier, ws):
     js = []
     js.append(Job('C17/PNC_check_id', 'C17', FILE_C, 'C17_idtable.c', enforce='PNC_check_id',
@@ -26,4 +34,7 @@ def jobs(tier, ws):
                   assumptions=['ncmpi_create: NCI_Malloc / NCI_Free substituted by counting wrappers in this TU; MPI calls, getenv, ncmpio_inq_driver and the driver entries are harness stubs; new_id_PNCList / del_from_PNCList / combine_env_hints by summary contracts']))
     import C03
     js.append(C03.create_job('C17'))   # F26: a create that fails after MPI_File_open keeps no file handle
+    import C18
+    js += vara_jobs(tier, 'C17')
+    js += [j for j in C18.subarray64_jobs(tier, 'C17') if 'ndims3' in j.name]   # F27: datatype balance of the large-dimension file type, failing path included
     return js
